@@ -97,7 +97,9 @@ func runC15(c *Ctx) {
 	if t, at := keyArg(m("StoreLog"), "PutCF", 3); t != nil {
 		fn := m("StoreLog")
 		v, _ := keyArg(fn, "PutCF", 4)
-		okV := v != nil && v.Has(func(x *Term) bool { return x.Op == "call" && x.Fn != nil && strings.HasPrefix(x.Fn.Name(), "encode") && x.Args[1].IsParam(fn, 1) })
+		okV := v != nil && v.Has(func(x *Term) bool {
+			return x.Op == "call" && x.Fn != nil && strings.HasPrefix(x.Fn.Name(), "encode") && x.Args[1].IsParam(fn, 1)
+		})
 		c.Check(isBE(t, isParamField(fn, 1, "Index")) && okV, "R4", "StoreLog", at.Pos(), "put(BE64(log.Index), encode(log))", "StoreLog puts key "+t.String()+" / value not the encoding of the same entry")
 	} else {
 		c.Fail("R4", "StoreLog", m("StoreLog").Pos(), "StoreLog does not put through PutCF")
@@ -126,7 +128,9 @@ func runC15(c *Ctx) {
 			if !(isBE(k, func(t *Term) bool { return t.IsField("Index", isElem) })) {
 				why = append(why, "key is "+k.String()+", expected BE64(entry.Index)")
 			}
-			if !v.Has(func(x *Term) bool { return x.Op == "call" && x.Fn != nil && strings.HasPrefix(x.Fn.Name(), "encode") && isElem(x.Args[1]) }) {
+			if !v.Has(func(x *Term) bool {
+				return x.Op == "call" && x.Fn != nil && strings.HasPrefix(x.Fn.Name(), "encode") && isElem(x.Args[1])
+			}) {
 				why = append(why, "value is "+v.String()+", expected the encoding of the same entry")
 			}
 			cs := p.CondsAt(put[0].Block())
@@ -160,8 +164,12 @@ func runC15(c *Ctx) {
 			}
 			t := p.TermOf(RetVal(ret, 0))
 			cs := p.CondsAt(b)
-			valid := hasCond(cs, func(kc Cond) bool { return kc.Pol && kc.Atom.Op == "call" && kc.Atom.Fn != nil && kc.Atom.Fn.Name() == "Valid" })
-			invalid := hasCond(cs, func(kc Cond) bool { return !kc.Pol && kc.Atom.Op == "call" && kc.Atom.Fn != nil && kc.Atom.Fn.Name() == "Valid" })
+			valid := hasCond(cs, func(kc Cond) bool {
+				return kc.Pol && kc.Atom.Op == "call" && kc.Atom.Fn != nil && kc.Atom.Fn.Name() == "Valid"
+			})
+			invalid := hasCond(cs, func(kc Cond) bool {
+				return !kc.Pol && kc.Atom.Op == "call" && kc.Atom.Fn != nil && kc.Atom.Fn.Name() == "Valid"
+			})
 			switch {
 			case valid:
 				if !(utilCallTerm(t, "BytesAsUint64") && t.Has(func(x *Term) bool { return x.Op == "call" && x.Fn != nil && x.Fn.Name() == "Key" })) {
